@@ -206,9 +206,9 @@ func TestEnumerateInterruptPoints(t *testing.T) {
 	}
 	configs := []config{
 		{false, "eval", 1},
-		{true, "eval", rec.Scale(3, 1)},
-		{false, "repl", rec.Scale(3, 1)},
-		{true, "repl", rec.Scale(6, 1)},
+		{true, "eval", rec.Scale(4, 1)},
+		{false, "repl", rec.Scale(4, 1)},
+		{true, "repl", rec.Scale(8, 1)},
 	}
 	idx, mine := 0, 0
 	complete := true
@@ -263,7 +263,7 @@ func TestEnumerateInterruptPoints(t *testing.T) {
 func TestAsyncInterrupts(t *testing.T) {
 	counts := map[string]int{}
 	refs := map[string]*inj.Ref{}
-	rec.Check(t, rec.Scale(30, 400), func(t *rapid.T) {
+	rec.Check(t, rec.Scale(14, 400), func(t *rapid.T) {
 		async := rapid.IntRange(0, 3).Draw(t, "kind") > 0
 		var c inj.Case
 		if async {
